@@ -31,6 +31,8 @@ type Gen struct {
 	Pad int
 	// NoBad: formatString only returns values that satisfy the format
 	NoBad bool
+	// Force: SetPath writes exactly this value at the leaf
+	Force interface{}
 }
 
 var pads = []string{" ", " ", "\t", "\n"}
@@ -750,6 +752,9 @@ func (g *Gen) extreme(t reflect.Type, ti TagInfo) interface{} {
 	for t.Kind() == reflect.Ptr {
 		t = t.Elem()
 	}
+	if g.Force != nil {
+		return g.Force
+	}
 	if g.Plain {
 		return g.Value(t, ti, 3)
 	}
@@ -1003,7 +1008,11 @@ func AdvPlan() []AdvItem {
 // GenAdvDoc builds the document of plan item it: a valid template of the kind (or a
 // generated document) with exactly that leaf driven to an extreme value.
 func (g *Gen) GenAdvDoc(it AdvItem) map[string]interface{} {
-	t := SpecType(it.Cat, it.Kind)
+	return g.GenAdvDocT(it, SpecType(it.Cat, it.Kind))
+}
+
+// GenAdvDocT is GenAdvDoc for an explicit spec type (objects).
+func (g *Gen) GenAdvDocT(it AdvItem, t reflect.Type) map[string]interface{} {
 	var doc map[string]interface{}
 	if tpls := Templates[it.Kind]; len(tpls) > 0 {
 		var raw interface{}
@@ -1141,4 +1150,49 @@ func (g *Gen) GenPadDoc(it AdvItem, variant int) map[string]interface{} {
 	g.Pad = variant
 	defer func() { g.Pad = 0 }()
 	return g.GenAdvDoc(it)
+}
+
+// IntLeaves lists the integer leaves of a spec type.
+func IntLeaves(t reflect.Type) [][]PathStep {
+	var out [][]PathStep
+	for _, p := range LeafPaths(t) {
+		tt := t
+		ok := true
+		for _, st := range p {
+			for tt.Kind() == reflect.Ptr {
+				tt = tt.Elem()
+			}
+			if st.Elem {
+				if tt.Kind() != reflect.Slice && tt.Kind() != reflect.Map {
+					ok = false
+					break
+				}
+				tt = tt.Elem()
+				continue
+			}
+			found := false
+			if tt.Kind() == reflect.Struct {
+				for _, f := range Fields(tt) {
+					if ParseTag(f).Name == st.Field {
+						tt, found = f.Type, true
+					}
+				}
+			}
+			if !found {
+				ok = false
+				break
+			}
+		}
+		for ok && tt.Kind() == reflect.Ptr {
+			tt = tt.Elem()
+		}
+		if ok {
+			switch tt.Kind() {
+			case reflect.Int, reflect.Int8, reflect.Int16, reflect.Int32, reflect.Int64,
+				reflect.Uint, reflect.Uint8, reflect.Uint16, reflect.Uint32, reflect.Uint64:
+				out = append(out, p)
+			}
+		}
+	}
+	return out
 }
